@@ -5,6 +5,7 @@ pub mod common;
 pub mod history;
 pub mod misc;
 pub mod parse;
+pub mod reuse;
 pub mod parse2;
 pub mod sdes;
 pub mod roundtrip;
